@@ -125,6 +125,8 @@ impl CertReloader {
         let new_acceptor = Arc::new(TlsAcceptor::from(new_config));
 
         // Analyze new certificate
+        #[cfg(feature = "verif")]
+        crate::verif::sync_point("reload.before_info_read");
         let new_cert_info = CertificateInfo::from_pem_file(&self.config.cert_path)?;
 
         // Log changes
@@ -153,6 +155,8 @@ impl CertReloader {
         }
 
         // Update atomically
+        #[cfg(feature = "verif")]
+        crate::verif::sync_point("reload.before_swap");
         *self.tls_acceptor.write().unwrap() = new_acceptor;
         *self.cert_info.write().unwrap() = Some(new_cert_info.clone());
         *self.reload_count.write().unwrap() += 1;
